@@ -166,6 +166,10 @@ func (ssc *defaultStatefulSetControl) ListRevisions(set *apps.StatefulSet) ([]*k
 		if ref := metav1.GetControllerOfNoCopy(&local); ref != nil && ref.UID != set.GetUID() {
 			continue
 		}
+		// a set that is being deleted adopts nothing, so orphans are not its business either
+		if metav1.GetControllerOfNoCopy(&local) == nil && set.GetDeletionTimestamp() != nil {
+			continue
+		}
 		res = append(res, &local)
 	}
 	return res, nil
